@@ -556,6 +556,25 @@ func (x *Exec) havocLoop(p *Path, fr *FrameState, l *Loop) {
 		}
 		return ok
 	}
+	var invariantVal func(v ssa.Value) (Val, bool)
+	invariantVal = func(v ssa.Value) (Val, bool) {
+		if defined(v) {
+			return x.val(p, v), true
+		}
+		if u, ok := v.(*ssa.UnOp); ok && u.Op == token.MUL {
+			if fa, ok := u.X.(*ssa.FieldAddr); ok {
+				st := structOf(fa.X.Type())
+				f := st.Field(fa.Field)
+				tkey := typeKey(fa.X.Type())
+				if x.e.isImmutableField(tkey, f.Name()) {
+					if bv, ok := invariantVal(fa.X); ok && bv.K == KScalar {
+						return x.e.loadField(p, nil, bv.S, tkey, f.Name(), f.Type()), true
+					}
+				}
+			}
+		}
+		return Val{}, false
+	}
 	type deferredElem struct {
 		fa *ssa.FieldAddr
 		et types.Type
@@ -622,6 +641,24 @@ func (x *Exec) havocLoop(p *Path, fr *FrameState, l *Loop) {
 			all = true
 		}
 	}
+	type deferredMap struct {
+		mt types.Type
+		v  ssa.Value
+	}
+	var deferredMaps []deferredMap
+	mapKeysObj := func(mt types.Type, obj string) {
+		mm := mt.Underlying().(*types.Map)
+		ks := x.e.sortOf(mm.Key())
+		for _, lf := range x.e.leaves(mm.Elem()) {
+			k := "M:" + mapKeyBase(mt) + lf.Path
+			x.e.keySort[k] = arrSort("Int", arrSort(ks, lf.Sort))
+			addKey(k, obj)
+		}
+		x.e.keySort["MD:"+mapKeyBase(mt)] = arrSort("Int", arrSort(ks, "Bool"))
+		x.e.keySort["ML:"+mapKeyBase(mt)] = arrSort("Int", "Int")
+		addKey("MD:"+mapKeyBase(mt), obj)
+		addKey("ML:"+mapKeyBase(mt), obj)
+	}
 	mapKeys := func(mt types.Type) {
 		mm := mt.Underlying().(*types.Map)
 		ks := x.e.sortOf(mm.Key())
@@ -645,7 +682,11 @@ func (x *Exec) havocLoop(p *Path, fr *FrameState, l *Loop) {
 				case *ssa.Store:
 					addrTargets(in.Addr, top)
 				case *ssa.MapUpdate:
-					mapKeys(in.Map.Type())
+					if top {
+						deferredMaps = append(deferredMaps, deferredMap{in.Map.Type(), in.Map})
+					} else {
+						mapKeys(in.Map.Type())
+					}
 				case *ssa.Next:
 					if top {
 						cells[x.iterCell(fr, in.Iter)] = true
@@ -657,7 +698,11 @@ func (x *Exec) havocLoop(p *Path, fr *FrameState, l *Loop) {
 					if b, ok := cc.Value.(*ssa.Builtin); ok {
 						switch b.Name() {
 						case "delete":
-							mapKeys(cc.Args[0].Type())
+							if top {
+								deferredMaps = append(deferredMaps, deferredMap{cc.Args[0].Type(), cc.Args[0]})
+							} else {
+								mapKeys(cc.Args[0].Type())
+							}
 						case "append", "copy":
 							if sl, ok := cc.Args[0].Type().Underlying().(*types.Slice); ok {
 								for _, lf := range x.e.leaves(sl.Elem()) {
@@ -721,8 +766,23 @@ func (x *Exec) havocLoop(p *Path, fr *FrameState, l *Loop) {
 						if hasExternal(fc) {
 							all = true
 						}
-						for _, k := range x.modKeysOfContract(fc, cc) {
-							addKey(k, "")
+						var objOf func(string) string
+						if top && fc.Kind == "func" {
+							// arguments that are loop-invariant (defined before the loop, or loaded inside it through immutable
+							// fields of such values) name the same object in every iteration
+							objOf = func(prm string) string {
+								for i, pr := range callee.Params {
+									if pr.Name() == prm && i < len(cc.Args) {
+										if v, ok := invariantVal(cc.Args[i]); ok && v.K == KScalar {
+											return v.S
+										}
+									}
+								}
+								return ""
+							}
+						}
+						for _, ko := range x.modObjKeysOfContract(fc, cc, objOf) {
+							addKey(ko[0], ko[1])
 						}
 						continue
 					}
@@ -740,6 +800,35 @@ func (x *Exec) havocLoop(p *Path, fr *FrameState, l *Loop) {
 		}
 	}
 	scan(fr.fn, l.Body, true)
+	// maps updated in the loop: a map that is the same object in every iteration (defined before the loop, or loaded
+	// through fields the loop does not write) is havocked alone
+	var unwritten func(v ssa.Value) (Val, bool)
+	unwritten = func(v ssa.Value) (Val, bool) {
+		if defined(v) {
+			return x.val(p, v), true
+		}
+		if u, ok := v.(*ssa.UnOp); ok && u.Op == token.MUL {
+			if fa, ok := u.X.(*ssa.FieldAddr); ok {
+				st := structOf(fa.X.Type())
+				f := st.Field(fa.Field)
+				tkey := typeKey(fa.X.Type())
+				_, written := targets[fieldKey(tkey, f.Name(), "")]
+				if x.e.isImmutableField(tkey, f.Name()) || (!all && !written) {
+					if bv, ok := unwritten(fa.X); ok && bv.K == KScalar {
+						return x.e.loadField(p, nil, bv.S, tkey, f.Name(), f.Type()), true
+					}
+				}
+			}
+		}
+		return Val{}, false
+	}
+	for _, d := range deferredMaps {
+		if v, ok := unwritten(d.v); ok && v.K == KScalar {
+			mapKeysObj(d.mt, v.S)
+		} else {
+			mapKeys(d.mt)
+		}
+	}
 	for _, d := range deferred {
 		st := structOf(d.fa.X.Type())
 		f := st.Field(d.fa.Field)
@@ -830,6 +919,17 @@ func hasExternal(fc *FuncContract) bool {
 // modKeysOfContract: heap keys (whole) a contract's modifies clause may touch, conservatively.
 func (x *Exec) modKeysOfContract(fc *FuncContract, cc *ssa.CallCommon) []string {
 	var out []string
+	for _, ko := range x.modObjKeysOfContract(fc, cc, nil) {
+		out = append(out, ko[0])
+	}
+	return out
+}
+
+// modObjKeysOfContract: like modKeysOfContract, but a target `prm.f` / `prm.f[i]` whose base is a parameter with a
+// known object term (objOf) is reported with that object ({key, obj}); obj "" = the whole key.
+func (x *Exec) modObjKeysOfContract(fc *FuncContract, cc *ssa.CallCommon, objOf func(param string) string) [][2]string {
+	var out [][2]string
+	curObj := ""
 	// resolve statically: need the types of the parameters
 	fn := x.e.funcs[fc.Pkg+"."+fc.Name]
 	ptypes := map[string]types.Type{}
@@ -853,7 +953,15 @@ func (x *Exec) modKeysOfContract(fc *FuncContract, cc *ssa.CallCommon) []string 
 	}
 	add := func(k string, srt string) {
 		x.e.keySort[k] = srt
-		out = append(out, k)
+		out = append(out, [2]string{k, curObj})
+	}
+	baseObj := func(e Expr) string {
+		if id, ok := e.(*EIdent); ok && objOf != nil && ptypes[id.Name] != nil {
+			if _, isPtr := ptypes[id.Name].Underlying().(*types.Pointer); isPtr {
+				return objOf(id.Name)
+			}
+		}
+		return ""
 	}
 	var typeOfExpr func(e Expr) types.Type
 	typeOfExpr = func(e Expr) types.Type {
@@ -952,14 +1060,18 @@ func (x *Exec) modKeysOfContract(fc *FuncContract, cc *ssa.CallCommon) []string 
 				}
 				continue
 			}
+			curObj = baseObj(e.X)
 			fieldKeys(typeOfExpr(e.X), e.F)
+			curObj = ""
 		case *EIndex:
 			if s, ok := e.X.(*ESel); ok {
 				bt := typeOfExpr(s.X)
 				if bt != nil {
 					tkey := typeKey(bt)
 					if tc := x.e.cs.Types[tkey]; tc != nil && tc.Ghost[s.F] != nil {
+						curObj = baseObj(s.X)
 						fieldKeys(bt, s.F)
+						curObj = ""
 						continue
 					}
 				}
@@ -975,7 +1087,9 @@ func (x *Exec) modKeysOfContract(fc *FuncContract, cc *ssa.CallCommon) []string 
 		if e, err := ParseExpr(fc.Atomic); err == nil {
 			if s, ok := e.(*ESel); ok {
 				if bt := typeOfExpr(s.X); bt != nil {
-					out = append(out, x.guardedKeys(typeKey(bt), s.F)...)
+					for _, k := range x.guardedKeys(typeKey(bt), s.F) {
+						out = append(out, [2]string{k, ""})
+					}
 				}
 			}
 		}
@@ -1925,7 +2039,54 @@ func (x *Exec) applyGhost(p *Path, fc *FuncContract, vars map[string]Val, res []
 	pre.pkg = fc.Pkg
 	pre.cur = old
 	pre.old = old
+	// ghost fields this function's ghost_ensures define (ghost state of callees, listed in modifies because the
+	// callees update it, is not touched here)
+	defined := map[string]bool{}
+	seenPred := map[string]bool{}
+	var collect func(e Expr)
+	collect = func(e Expr) {
+		switch e := e.(type) {
+		case *ECall:
+			if pd := x.e.cs.Preds[e.Fn]; pd != nil && !seenPred[e.Fn] {
+				seenPred[e.Fn] = true
+				collect(pd.Body)
+			}
+			for _, a := range e.Args {
+				collect(a)
+			}
+		case *EUnary:
+			collect(e.X)
+		case *EBinary:
+			collect(e.L)
+			collect(e.R)
+		case *ESel:
+			defined[e.F] = true
+			collect(e.X)
+		case *EIndex:
+			collect(e.X)
+			collect(e.I)
+		case *EQuant:
+			collect(e.Body)
+		}
+	}
+	for _, c := range fc.GhostEns {
+		collect(c.E)
+	}
 	for _, m := range fc.Modifies {
+		if ex, err := ParseExpr(m); err == nil {
+			f := ""
+			switch t := ex.(type) {
+			case *ESel:
+				f = t.F
+			case *EIndex:
+				if s, ok := t.X.(*ESel); ok {
+					f = s.F
+				}
+			}
+			if f != "" && !defined[f] {
+				continue
+			}
+		}
 		x.havocTarget(p, pre, m, true, fc)
 	}
 	ctx := x.evalCtx(p, x.withResults(fc, vars, res))
